@@ -136,6 +136,12 @@ theorem failure_iff_no_signal (cfg : KillCfg) (v : View) (k : Nat) (env : Env) (
       obtain ⟨e, he, hsig⟩ := attempt_success_signal cfg v k env hd hv
       rw [hall e he] at hsig; cases hsig
 
+/-- file names and loop bounds of the kill path (Fs.h / BaseKillPlugin.cpp, via the translator) -/
+theorem control_files_and_bounds :
+    CtlFile.str .kill = "cgroup.kill" ∧ CtlFile.str .freeze = "cgroup.freeze" ∧
+    OomdModel.Generated.fileCgroupProcs = "cgroup.procs" ∧
+    OomdModel.Generated.killRetries = 10 ∧ OomdModel.Generated.killStreamSize = 20 := by decide
+
 /-! ## non-vacuity: a concrete invocation -/
 
 private def nd (id : Nat) (cs : List View := []) (key : Int := 0) : View :=
